@@ -1,5 +1,6 @@
 //@ variant: main DEFS=-DXV_TD_MAIN
 //@ variant: huge DEFS=-DXV_REL_MAX=(1.0/0.0)
+//@ variant: ids DEFS=-DXV_ID_MAX=0x7ffffffffffffffeL
 //@ tu: libxcm/core/timer_mgr.c
 //@ enforce: timer_mgr_schedule
 //@ pre-unwind: update_epoll.0:6
@@ -8,7 +9,8 @@
 //@ props: C04 C13
 //@ expect: postcondition>=6 canary=4
 #include "_unit_tm.h"
-/* @huge: no upper bound on the relative timeout (the attribute setters accept any non-negative double, +inf included) */
+/* @ids: next_timer_id beyond INT_MAX (schedule_abs() holds the int64_t id in an `int`)
+ * @huge: no upper bound on the relative timeout (the attribute setters accept any non-negative double, +inf included) */
 void harness(void)
 {
     xv_ghost_havoc();
